@@ -153,46 +153,123 @@ let fail_string = function
 
 let fields_of = function M.VObj (_, fs) -> fs | _ -> failwith "expected an object value"
 
+let parse_op (line : string) (opname : string) (args : string list) : M.op =
+  match opname, args with
+  | "WP", [p; v] -> M.OWritePrim (prim_of_string p, parse_value v)
+  | "RP", [p; h] -> M.OReadPrim (prim_of_string p, bytes_of_hex h)
+  | "CK", [a; h] -> M.OCalc (alg_of_string a, bytes_of_hex h)
+  | "E", [t; v; h] -> M.OEnc (n_of_int (int_of_string t), fields_of (parse_value v), bytes_of_hex h)
+  | "D", [t; v; h] -> M.ODec (n_of_int (int_of_string t), fields_of (parse_value v), bytes_of_hex h)
+  | "Z", [t] -> M.OZero (n_of_int (int_of_string t))
+  | "RG", [cs] ->
+    let num s = n_of_int (int_of_string s) in
+    let call tok =
+      let rest = String.sub tok 1 (String.length tok - 1) in
+      match tok.[0] with
+      | 'r' -> (match String.split_on_char ':' rest with
+                | [k; v] -> M.CRegistry (num k, num v) | _ -> failwith ("bad registry call " ^ tok))
+      | 'b' -> M.CRegistryBad
+      | 'g' -> M.CGet (num rest)
+      | 'x' -> M.CRemove (num rest)
+      | 'c' -> M.CClear
+      | _ -> failwith ("bad registry call " ^ tok) in
+    M.OReg (List.map call (List.filter (fun t -> t <> "") (String.split_on_char ' ' cs)))
+  | "BF", [a; k; ops] ->
+    let nat s = nat_of_int (int_of_string s) in
+    let bop tok =
+      let rest = String.sub tok 1 (String.length tok - 1) in
+      match tok.[0], String.split_on_char ':' rest with
+      | 'w', [nc; h] -> M.BWrite (nat nc, bytes_of_hex h)
+      | 'g', [nc; n] -> M.BGrow (nat nc, nat n)
+      | 'n', [k] -> M.BNext (nat k)
+      | 'r', [k] -> M.BRead (nat k)
+      | 'f', [k] -> M.BReadFull (nat k)
+      | 'z', _ -> M.BReset
+      | 'b', _ -> M.BBytes
+      | 'p', [i; p; h] -> M.BPoke (nat i, nat p, bytes_of_hex h)
+      | _ -> failwith ("bad buffer op " ^ tok) in
+    M.OBuf (bytes_of_hex a, nat k, List.map bop (List.filter (fun t -> t <> "") (String.split_on_char ' ' ops)))
+  | _ -> failwith ("bad case line: " ^ line)
+
+
+(* ---------- Coq syntax of operations and results (for the in-Coq cross-check of the extraction) ---------- *)
+let coq_n (n : M.n) : string = "0x" ^ hex_of_n n ^ "%N"      (* 64-bit values do not fit an OCaml int *)
+let coq_nat (n : M.nat) : string = Printf.sprintf "%d%%nat" (int_of_nat n)
+let coq_bool b = if b then "true" else "false"
+let coq_list (f : 'a -> string) (l : 'a list) : string = "[" ^ String.concat "; " (List.map f l) ^ "]"
+let coq_byte (b : M.byte) : string = Printf.sprintf "x%02x" (Hashtbl.find byte_rev b)
+let coq_bytes l = coq_list coq_byte l
+let coq_ity = function
+  | M.I8 -> "I8" | M.I16 -> "I16" | M.I32 -> "I32" | M.I64 -> "I64" | M.U8 -> "U8" | M.U16 -> "U16"
+  | M.U32 -> "U32" | M.U64 -> "U64" | M.F32 -> "F32" | M.F64 -> "F64"
+let coq_alg = function M.ACrc16 -> "ACrc16" | M.ACrc32 -> "ACrc32" | M.ASse -> "ASse" | M.ASzse -> "ASzse"
+let coq_prim = function
+  | M.PBasic (le, t) -> Printf.sprintf "(PBasic %s %s)" (coq_bool le) (coq_ity t)
+  | M.PFixed (n, pad, left) -> Printf.sprintf "(PFixed %s %s %s)" (coq_nat n) (coq_n pad) (coq_bool left)
+  | M.PString (le, t) -> Printf.sprintf "(PString %s %s)" (coq_bool le) (coq_ity t)
+  | M.PBasicList (le, c, e) -> Printf.sprintf "(PBasicList %s %s %s)" (coq_bool le) (coq_ity c) (coq_ity e)
+  | M.PFixedList (le, c, n, pad, left) ->
+    Printf.sprintf "(PFixedList %s %s %s %s %s)" (coq_bool le) (coq_ity c) (coq_nat n) (coq_n pad) (coq_bool left)
+  | M.PStringList (le, c, l) -> Printf.sprintf "(PStringList %s %s %s)" (coq_bool le) (coq_ity c) (coq_ity l)
+  | M.PObjList (le, c, t) -> Printf.sprintf "(PObjList %s %s %s)" (coq_bool le) (coq_ity c) (coq_n t)
+let rec coq_value = function
+  | M.VInt n -> "(VInt " ^ coq_n n ^ ")"
+  | M.VStr s -> "(VStr " ^ coq_bytes s ^ ")"
+  | M.VInts l -> "(VInts " ^ coq_list coq_n l ^ ")"
+  | M.VStrs l -> "(VStrs " ^ coq_list coq_bytes l ^ ")"
+  | M.VObj (t, fs) -> "(VObj " ^ coq_n t ^ " " ^ coq_list coq_value fs ^ ")"
+  | M.VObjs l -> "(VObjs " ^ coq_list coq_value l ^ ")"
+  | M.VNil -> "VNil"
+let coq_fail = function M.FErr -> "FErr" | M.FPanic -> "FPanic" | M.FFuel -> "FFuel" | M.FUnmodelled -> "FUnmodelled"
+let coq_res (f : 'a -> string) = function M.Ok x -> "(Ok " ^ f x ^ ")" | M.Fail e -> "(Fail " ^ coq_fail e ^ ")"
+let coq_call = function
+  | M.CRegistry (k, v) -> Printf.sprintf "(Locks.CRegistry %s %s)" (coq_n k) (coq_n v)
+  | M.CRegistryBad -> "Locks.CRegistryBad"
+  | M.CGet k -> "(Locks.CGet " ^ coq_n k ^ ")"
+  | M.CRemove k -> "(Locks.CRemove " ^ coq_n k ^ ")"
+  | M.CClear -> "Locks.CClear"
+let coq_ret = function
+  | M.RBool b -> "(Locks.RBool " ^ coq_bool b ^ ")"
+  | M.RVal (Some v) -> "(Locks.RVal (Some " ^ coq_n v ^ "))"
+  | M.RVal None -> "(Locks.RVal None)"
+  | M.RUnit -> "Locks.RUnit"
+let coq_bop = function
+  | M.BWrite (nc, bs) -> Printf.sprintf "(Buffer.BWrite %s %s)" (coq_nat nc) (coq_bytes bs)
+  | M.BGrow (nc, n) -> Printf.sprintf "(Buffer.BGrow %s %s)" (coq_nat nc) (coq_nat n)
+  | M.BNext k -> "(Buffer.BNext " ^ coq_nat k ^ ")"
+  | M.BRead k -> "(Buffer.BRead " ^ coq_nat k ^ ")"
+  | M.BReadFull k -> "(Buffer.BReadFull " ^ coq_nat k ^ ")"
+  | M.BReset -> "Buffer.BReset"
+  | M.BBytes -> "Buffer.BBytes"
+  | M.BPoke (i, p, bs) -> Printf.sprintf "(Buffer.BPoke %s %s %s)" (coq_nat i) (coq_nat p) (coq_bytes bs)
+let coq_op = function
+  | M.OWritePrim (p, v) -> Printf.sprintf "(OWritePrim %s %s)" (coq_prim p) (coq_value v)
+  | M.OReadPrim (p, b) -> Printf.sprintf "(OReadPrim %s %s)" (coq_prim p) (coq_bytes b)
+  | M.OCalc (a, b) -> Printf.sprintf "(OCalc %s %s)" (coq_alg a) (coq_bytes b)
+  | M.OEnc (t, fs, b) -> Printf.sprintf "(OEnc %s %s %s)" (coq_n t) (coq_list coq_value fs) (coq_bytes b)
+  | M.ODec (t, fs, b) -> Printf.sprintf "(ODec %s %s %s)" (coq_n t) (coq_list coq_value fs) (coq_bytes b)
+  | M.OZero t -> "(OZero " ^ coq_n t ^ ")"
+  | M.OReg cs -> "(OReg " ^ coq_list coq_call cs ^ ")"
+  | M.OBuf (a, k, os) -> Printf.sprintf "(OBuf %s %s %s)" (coq_bytes a) (coq_nat k) (coq_list coq_bop os)
+let coq_pair f g (a, b) = "(" ^ f a ^ ", " ^ g b ^ ")"
+let coq_out = function
+  | M.RBytes r -> "(RBytes " ^ coq_res coq_bytes r ^ ")"
+  | M.RValue r -> "(RValue " ^ coq_res (coq_pair coq_value coq_bytes) r ^ ")"
+  | M.RNum n -> "(RNum " ^ coq_n n ^ ")"
+  | M.RMsg r -> "(RMsg " ^ coq_res (coq_pair (coq_list coq_value) coq_bytes) r ^ ")"
+  | M.RZero None -> "(RZero None)"
+  | M.RZero (Some fs) -> "(RZero (Some " ^ coq_list coq_value fs ^ "))"
+  | M.RRets l -> "(RRets " ^ coq_list coq_ret l ^ ")"
+  | M.RBuf l ->
+    "(RBuf " ^ coq_list (function
+      | None -> "None"
+      | Some ((c, cp), sls) -> "(Some (" ^ coq_bytes c ^ ", " ^ coq_nat cp ^ ", " ^ coq_list coq_bytes sls ^ "))") l ^ ")"
+
 let run_line (line : string) : string =
   match String.split_on_char '\t' line with
   | [id; "DC"; t; h] -> id ^ "\tok\t" ^ hex_of_n (M.gen_decode_cost (n_of_int (int_of_string t)) (bytes_of_hex h))
   | id :: opname :: args ->
-    let o = match opname, args with
-      | "WP", [p; v] -> M.OWritePrim (prim_of_string p, parse_value v)
-      | "RP", [p; h] -> M.OReadPrim (prim_of_string p, bytes_of_hex h)
-      | "CK", [a; h] -> M.OCalc (alg_of_string a, bytes_of_hex h)
-      | "E", [t; v; h] -> M.OEnc (n_of_int (int_of_string t), fields_of (parse_value v), bytes_of_hex h)
-      | "D", [t; v; h] -> M.ODec (n_of_int (int_of_string t), fields_of (parse_value v), bytes_of_hex h)
-      | "Z", [t] -> M.OZero (n_of_int (int_of_string t))
-      | "RG", [cs] ->
-        let num s = n_of_int (int_of_string s) in
-        let call tok =
-          let rest = String.sub tok 1 (String.length tok - 1) in
-          match tok.[0] with
-          | 'r' -> (match String.split_on_char ':' rest with
-                    | [k; v] -> M.CRegistry (num k, num v) | _ -> failwith ("bad registry call " ^ tok))
-          | 'b' -> M.CRegistryBad
-          | 'g' -> M.CGet (num rest)
-          | 'x' -> M.CRemove (num rest)
-          | 'c' -> M.CClear
-          | _ -> failwith ("bad registry call " ^ tok) in
-        M.OReg (List.map call (List.filter (fun t -> t <> "") (String.split_on_char ' ' cs)))
-      | "BF", [a; k; ops] ->
-        let nat s = nat_of_int (int_of_string s) in
-        let bop tok =
-          let rest = String.sub tok 1 (String.length tok - 1) in
-          match tok.[0], String.split_on_char ':' rest with
-          | 'w', [nc; h] -> M.BWrite (nat nc, bytes_of_hex h)
-          | 'g', [nc; n] -> M.BGrow (nat nc, nat n)
-          | 'n', [k] -> M.BNext (nat k)
-          | 'r', [k] -> M.BRead (nat k)
-          | 'f', [k] -> M.BReadFull (nat k)
-          | 'z', _ -> M.BReset
-          | 'b', _ -> M.BBytes
-          | 'p', [i; p; h] -> M.BPoke (nat i, nat p, bytes_of_hex h)
-          | _ -> failwith ("bad buffer op " ^ tok) in
-        M.OBuf (bytes_of_hex a, nat k, List.map bop (List.filter (fun t -> t <> "") (String.split_on_char ' ' ops)))
-      | _ -> failwith ("bad case line: " ^ line) in
+    let o = parse_op line opname args in
     let tid = match o with M.OEnc (t, _, _) | M.ODec (t, _, _) | M.OZero t -> t | _ -> M.N0 in
     let payload = match M.run_op M.gen_world o with
       | M.RBytes (M.Ok bs) -> "ok\t" ^ hex_of_bytes bs
@@ -217,7 +294,50 @@ let run_line (line : string) : string =
     id ^ "\t" ^ payload
   | _ -> failwith ("bad case line: " ^ line)
 
+(* run -coq <cases> <out.v> <max> <header file>: the first <max> cases (short lines only) as Coq terms together with the
+   results THIS program computed for them, and a lemma that the kernel's evaluation of run_op gives the same *)
+let emit_coq cases outv maxn header =
+  let total = ref 0 in
+  (let ic = open_in cases in (try while true do ignore (input_line ic); incr total done with End_of_file -> ()); close_in ic);
+  let stride = max 1 (!total / (max 1 maxn)) in
+  let ic = open_in cases in
+  let oc = open_out outv in
+  let hd = open_in header in
+  (try while true do output_string oc (input_line hd); output_char oc '\n' done with End_of_file -> ());
+  close_in hd;
+  let n = ref 0 and k = ref 0 in
+  let items = ref [] in
+  (try
+     while !n < maxn do
+       let line = input_line ic in
+       incr k;
+       (* every stride-th case, and only short ones (a long byte list costs the Coq parser more than the evaluation) *)
+       if (!k mod stride = 0 || String.length line < 1) && line <> "" && String.length line < 1500 then begin
+         match String.split_on_char '\t' line with
+         | _ :: "DC" :: _ -> ()
+         | _ :: opname :: args ->
+           (try
+              let o = parse_op line opname args in
+              let r = M.run_op M.gen_world o in
+              items := ("  (" ^ coq_op o ^ ",\n   " ^ coq_out r ^ ")") :: !items; incr n
+            with Stack_overflow | Failure _ -> ())
+         | _ -> ()
+       end
+     done
+   with End_of_file -> ());
+  close_in ic;
+  output_string oc "Definition cases : list (op * out) := [\n";
+  output_string oc (String.concat ";\n" (List.rev !items));
+  output_string oc "\n].\n";
+  output_string oc "Lemma extraction_agrees : map (fun c => run_op gen_world (fst c)) cases = map snd cases.\nProof. vm_compute. reflexivity. Qed.\n";
+  output_string oc (Printf.sprintf "(* %d cases *)\n" !n);
+  close_out oc;
+  Printf.printf "%d\n" !n
+
 let () =
+  if Array.length Sys.argv > 5 && Sys.argv.(1) = "-coq" then begin
+    emit_coq Sys.argv.(2) Sys.argv.(3) (int_of_string Sys.argv.(4)) Sys.argv.(5); exit 0
+  end;
   let ic = if Array.length Sys.argv > 1 then open_in Sys.argv.(1) else stdin in
   let oc = if Array.length Sys.argv > 2 then open_out Sys.argv.(2) else stdout in
   (try
